@@ -85,7 +85,21 @@ def gen_doc(rng, big=False, faults=True, huge=False):
         later['kids'] += [{'tag': 'link', 'attrs': {'to': '1'}, 'text': None, 'decls': [], 'kids': []} for _ in range(2)]
     # a key reference held by the root itself (selector "."): processed after all the streamed chunks
     rattrs = {'default': str(rng.randint(1, 12) if faults else 1)} if rng.random() < 0.5 else {}
-    return {'tag': 'root', 'attrs': rattrs, 'text': None, 'decls': [], 'kids': kids}
+    doc = {'tag': 'root', 'attrs': rattrs, 'text': None, 'decls': [], 'kids': kids}
+
+    # QName values that use the prefixes in scope: declared on the item itself, on its section (a chunk root of lazy depth 1)
+    # or on an enclosing section
+    def walk(n, scope):
+        scope = scope | {PFX[p] for p, _u in n['decls']}
+        if n['tag'] == 'item' and rng.random() < 0.4:
+            if faults and rng.random() < 0.05:
+                n['attrs']['q'] = 'zz:name'
+            else:
+                n['attrs']['q'] = '%s:name' % rng.choice(sorted(scope))
+        for k in n['kids']:
+            walk(k, scope)
+    walk(doc, {'t'})
+    return doc
 
 
 def ensure_valid_refs(doc):
